@@ -573,6 +573,9 @@ class DestHandler:
                 self._start_deferred_lost_segment_handling()
             else:
                 self._checksum_verify()
+                if self.states.state == CfdpState.IDLE:
+                    # The transaction was abandoned by the fault handler.
+                    return
                 self.states.step = TransactionStep.TRANSFER_COMPLETION
 
     def _start_transaction(self, metadata_pdu: MetadataPdu) -> bool:
@@ -722,6 +725,9 @@ class DestHandler:
         if not self._params.fp.metadata_only:
             self.states.step = TransactionStep.RECEIVING_FILE_DATA
             self._init_vfs_handling(Path(metadata_pdu.source_file_name).name)  # type: ignore
+            if self.states.state == CfdpState.IDLE:
+                # The transaction was abandoned by the fault handler.
+                return
         else:
             self.states.step = TransactionStep.TRANSFER_COMPLETION
         msgs_to_user_list = None
@@ -823,6 +829,9 @@ class DestHandler:
                 >= self._params.remote_cfg.positive_ack_timer_expiration_limit
             ):
                 self._declare_fault(ConditionCode.POSITIVE_ACK_LIMIT_REACHED)
+                if self.states.state == CfdpState.IDLE:
+                    # The transaction was abandoned by the fault handler.
+                    return None
                 # This is a bit of a hack: We want the transfer completion and the corresponding
                 # Finished PDU to be re-sent in the same FSM cycle. However, the call
                 # order in the FSM prevents this from happening, so we just call the state machine
@@ -927,6 +936,9 @@ class DestHandler:
         ):
             # We are done and have received everything.
             self._checksum_verify()
+            if self.states.state == CfdpState.IDLE:
+                # The transaction was abandoned by the fault handler.
+                return
             self.states.step = TransactionStep.TRANSFER_COMPLETION
             self._params.acked_params.deferred_lost_segment_detection_active = False
             return
@@ -1161,6 +1173,9 @@ class DestHandler:
         if self._params.check_timer.timed_out():
             if self._checksum_verify():
                 self._file_transfer_complete_transition()
+                return
+            if self.states.state == CfdpState.IDLE:
+                # The transaction was abandoned by the fault handler.
                 return
             if self._params.current_check_count + 1 >= self._params.remote_cfg.check_limit:
                 self._declare_fault(ConditionCode.CHECK_LIMIT_REACHED)
